@@ -287,6 +287,9 @@ def identity_comparisons(rep, idx, rule="C19.11", classes=None):
                             return True
                         if isinstance(e, ast.Name) and (e.id[:1].isupper() or e.id.isupper()):
                             return True
+                        # the instance itself is an object, not a value: `other is self` asks for the same object on purpose
+                        if isinstance(e, ast.Name) and e.id == "self" and f.params[:1] == ["self"]:
+                            return True
                         # a local sentinel: name = object(), bound once
                         if isinstance(e, ast.Name):
                             defs = [s for s in ast.walk(f.node) if isinstance(s, ast.Assign) and any(isinstance(t, ast.Name) and t.id == e.id for t in s.targets)]
